@@ -381,3 +381,10 @@ class Stage2EscIntrinsics(Stage2SummIntrinsics):
             if st not in [s for s, _ in items]:
                 st.status = "dead"
             return Forks(items)
+
+
+from .intr_chunks import ChunkIntrinsics
+
+
+class DeepIntrinsics(Stage2SummIntrinsics, ChunkIntrinsics):
+    """stage-2 contracts + serializer chunk/hash contracts together (whole-stack lemmas)"""
